@@ -66,6 +66,7 @@ type Val struct {
 	Idx   Term       // for an element of a constant function table: the index
 	Elems []Val      // for a slice built from a local array literal: its elements (Go-side)
 	Fresh bool       // a slice whose backing array was allocated by this function (make, append to nil, io.ReadAll): shared with nobody yet
+	ShrLen Term      // for a re-slice x[lo:hi] of a slice that came in as a parameter: how far the caller's view of the backing array reaches (len(x)-lo); an append onto it may write into the caller's bytes
 }
 
 type CallEvent struct {
